@@ -612,7 +612,7 @@ Definition fields_ok (fs : list field) : Prop := Forall (fun f => reader_field f
 
 Fixpoint wf_ident (n : nat) (e : env) (s : schema) {struct n} : Prop :=
   match n with
-  | O => False
+  | O => True          (* nothing is visited beyond the depth of the value *)
   | S n =>
     match s with
     | SArray s' | SMap s' => wf_ident n e s' /\ smatch e e true s' s' = true
@@ -624,9 +624,10 @@ Fixpoint wf_ident (n : nat) (e : env) (s : schema) {struct n} : Prop :=
     end
   end.
 
-Lemma wf_ident_mono : forall n e s, wf_ident n e s -> wf_ident (S n) e s.
+(* checking deeper implies checking less deep *)
+Lemma wf_ident_anti : forall n e s, wf_ident (S n) e s -> wf_ident n e s.
 Proof.
-  induction n as [|n IH]; intros e s H; [destruct H|].
+  induction n as [|n IH]; intros e s H; [exact I|].
   destruct s; try exact I; cbn [wf_ident] in H |- *.
   - destruct H as [H1 H2]. split; [apply IH; exact H1|exact H2].
   - destruct H as [H1 H2]. split; [apply IH; exact H1|exact H2].
@@ -636,8 +637,8 @@ Proof.
   - apply IH. exact H.
 Qed.
 
-Lemma wf_ident_le n m e s : (n <= m)%nat -> wf_ident n e s -> wf_ident m e s.
-Proof. induction 1 as [|m _ IH]; intros H; [exact H|]. apply wf_ident_mono. auto. Qed.
+Lemma wf_ident_le n m e s : (n <= m)%nat -> wf_ident m e s -> wf_ident n e s.
+Proof. induction 1 as [|m _ IH]; intros H; [exact H|]. apply IH. apply wf_ident_anti. exact H. Qed.
 
 Definition ident_ok (e : env) (s : schema) (a : aval) : Prop :=
   exists v, py_of o e s a = Some v /\ resolve o e e s s a = ROk v.
